@@ -262,7 +262,7 @@ func (e *Exec) concretize(t *Term, lo, hi int64) int64 {
 // fresh symbols
 
 func (e *Exec) fresh(kind string, w int) *Term {
-	name := fmt.Sprintf("d%d", e.drawSeq)
+	name := fmt.Sprintf("d%dw%d", e.drawSeq, w)
 	e.drawSeq++
 	v := e.tc.Var(name, w)
 	e.draws = append(e.draws, Draw{Kind: kind, Vars: []*Term{v}})
@@ -275,7 +275,7 @@ func (e *Exec) freshBytes(n int) []Value {
 	vars := make([]*Term, n)
 	vals := make([]Value, n)
 	for i := 0; i < n; i++ {
-		vars[i] = e.tc.Var(fmt.Sprintf("d%d_%d", base, i), 8)
+		vars[i] = e.tc.Var(fmt.Sprintf("d%d_%dw8", base, i), 8)
 		vals[i] = vars[i]
 	}
 	e.draws = append(e.draws, Draw{Kind: "bytes", Vars: vars, N: n})
@@ -284,7 +284,7 @@ func (e *Exec) freshBytes(n int) []Value {
 
 // internal (non-replayed) fresh symbol, e.g. for opaque results
 func (e *Exec) internalVar(w int) *Term {
-	name := fmt.Sprintf("x%d", e.drawSeq)
+	name := fmt.Sprintf("x%dw%d", e.drawSeq, w)
 	e.drawSeq++
 	return e.tc.Var(name, w)
 }
